@@ -22,10 +22,14 @@ import (
 type HParams struct {
 	MDS    int64 `json:"mds"`
 	Server bool  `json:"server"`
+	// generator hints (Apply does not read them): a history directed to the maximum window, see genNear
+	Near      bool  `json:"near,omitempty"`
+	NearRTT   int64 `json:"near_rtt,omitempty"`
+	NearChunk int   `json:"near_chunk,omitempty"`
 }
 
 type HOp struct {
-	K    string `json:"k"` // send | ack | timeout | mtu | tick
+	K    string `json:"k"` // send | ack | timeout | mtu | tick | rounds
 	Dt   int64  `json:"dt,omitempty"`
 	N    int    `json:"n,omitempty"`
 	Size int64  `json:"sz,omitempty"`
@@ -37,6 +41,13 @@ type HOp struct {
 	Hole     int   `json:"hole,omitempty"`
 	AckDelay int64 `json:"ad,omitempty"`
 	MDS      int64 `json:"mds,omitempty"`
+	// rounds (macro-op, expanded inside Apply into the ordinary calls): R window-limited round trips. In each the
+	// window is filled as send{wait} does, then everything outstanding at that moment is acknowledged in ACK frames
+	// of Chunk packets (0: one frame), each arriving RTT after its largest packet left, and the window is refilled
+	// after every frame (ACK clocking).
+	R     int   `json:"r,omitempty"`
+	Chunk int   `json:"chunk,omitempty"`
+	RTT   int64 `json:"rtt,omitempty"`
 }
 
 type nopFrameHandler struct{}
@@ -48,6 +59,7 @@ type hpkt struct {
 	pn   protocol.PacketNumber
 	size int64
 	ae   bool
+	sent int64
 }
 
 type sphMachine struct {
@@ -65,10 +77,18 @@ type sphMachine struct {
 	lastCwnd, minCwndSeen             int64
 	anyChecks                         int
 	sig                               []byte
+
+	p                  HParams
+	work               int  // SentPacket calls so far (generator budget)
+	hitMax, nearMax    bool // window at / within three packets below the maximum
+	roundsAtMax        int  // round trips of a rounds op that began with the window within three packets of the maximum
+	roundsOp           bool
+	mtuAtMax           bool
+	nearExit, nearLeft bool // generator state
 }
 
 func newSPHMachine(p HParams) vf.Machine[HOp] {
-	m := &sphMachine{u: vf.U("sendmode-window"), now: 3_600_000_000_000, mds: p.MDS}
+	m := &sphMachine{u: vf.U("sendmode-window"), now: 3_600_000_000_000, mds: p.MDS, p: p}
 	m.rtt = utils.NewRTTStats()
 	m.rtt.SetMaxAckDelay(25 * time.Millisecond)
 	pers := protocol.PerspectiveClient
@@ -96,6 +116,19 @@ func (m *sphMachine) mode() (ackhandler.SendMode, *vf.Verdict) {
 		m.grewAfterShrink = true
 	}
 	m.lastCwnd = cwnd
+	// window bounds through the production wiring (NewSentPacketHandler -> NewCubicSender(reno)): property text,
+	// "between two full-size packets and the configured maximum (plus at most one packet)"
+	if cwnd > (protocol.MaxCongestionWindowPackets+1)*m.mds {
+		return sm, vf.Bad(sigAboveMax, "sentPacketHandler: cwnd %d > (%d+1)*%d (bytes in flight %d)", cwnd, protocol.MaxCongestionWindowPackets, m.mds, bif)
+	}
+	if cwnd < 2*m.mds {
+		return sm, vf.Bad(sigBelowMin, "sentPacketHandler: cwnd %d < 2*%d (bytes in flight %d)", cwnd, m.mds, bif)
+	}
+	if cwnd >= protocol.MaxCongestionWindowPackets*m.mds {
+		m.hitMax = true
+	} else if cwnd >= (protocol.MaxCongestionWindowPackets-3)*m.mds {
+		m.nearMax = true
+	}
 	if bif >= cwnd {
 		m.atWindow = true
 		if bif == cwnd {
@@ -133,7 +166,93 @@ func (m *sphMachine) sendPacket(size int64, ackEliciting bool) {
 		largestAcked = 0
 	}
 	m.h.SentPacket(m.t(), pn, largestAcked, nil, frames, protocol.Encryption1RTT, protocol.ECNNon, protocol.ByteCount(size), false, false)
-	m.sent = append(m.sent, hpkt{pn: pn, size: size, ae: ackEliciting})
+	m.sent = append(m.sent, hpkt{pn: pn, size: size, ae: ackEliciting, sent: m.now})
+	m.work++
+}
+
+// ackRanges builds the ACK ranges (descending) for packet numbers that were really sent.
+func ackRanges(pns []protocol.PacketNumber) []wire.AckRange {
+	var ranges []wire.AckRange
+	for i := len(pns) - 1; i >= 0; i-- {
+		if n := len(ranges); n > 0 && ranges[n-1].Smallest == pns[i]+1 {
+			ranges[n-1].Smallest = pns[i]
+		} else {
+			ranges = append(ranges, wire.AckRange{Smallest: pns[i], Largest: pns[i]})
+		}
+	}
+	return ranges
+}
+
+// fill sends new data while SendMode allows it, waiting for the pacer like the connection's timer.
+func (m *sphMachine) fill(chunk int, rtt int64) *vf.Verdict {
+	until := int64(0) // arrival of the next ACK frame: it is processed before a later pacing deadline
+	if n := len(m.sent); n > 0 && rtt > 0 {
+		c := n
+		if chunk > 0 {
+			c = min(c, chunk)
+		}
+		until = m.sent[c-1].sent + rtt
+	}
+	for i := 0; i < 40000; i++ {
+		sm, v := m.mode()
+		if v != nil {
+			return v
+		}
+		switch sm {
+		case ackhandler.SendAny:
+			m.sendPacket(m.mds, true)
+		case ackhandler.SendPacingLimited:
+			t := int64(m.h.TimeUntilSend())
+			if t <= m.now {
+				t = m.now + 100_000
+			}
+			if until > 0 && t > until {
+				return nil
+			}
+			m.now = t
+		default:
+			return nil
+		}
+	}
+	return nil
+}
+
+func (m *sphMachine) applyRounds(op HOp) *vf.Verdict {
+	m.roundsOp = true
+	for r := 0; r < max(op.R, 1); r++ {
+		if v := m.fill(op.Chunk, op.RTT); v != nil {
+			return v
+		}
+		if int64(ackhandler.VerifCongestionWindow(m.h)) >= (protocol.MaxCongestionWindowPackets-3)*m.mds {
+			m.roundsAtMax++
+		}
+		n := len(m.sent)
+		for n > 0 && len(m.sent) > 0 {
+			c := min(n, len(m.sent))
+			if op.Chunk > 0 {
+				c = min(c, op.Chunk)
+			}
+			batch := m.sent[:c:c]
+			m.sent = m.sent[c:]
+			n -= c
+			m.now = max(m.now, batch[c-1].sent+op.RTT)
+			pns := make([]protocol.PacketNumber, c)
+			for i, p := range batch {
+				pns[i] = p.pn
+			}
+			ranges := ackRanges(pns)
+			if _, err := m.h.ReceivedAck(&wire.AckFrame{AckRanges: ranges}, protocol.Encryption1RTT, m.t()); err != nil {
+				return vf.Bad(sigSPHError, "ReceivedAck(%d ranges, largest %d) for sent packets returned %v", len(ranges), ranges[0].Largest, err)
+			}
+			if _, v := m.mode(); v != nil {
+				return v
+			}
+			if v := m.fill(op.Chunk, op.RTT); v != nil {
+				return v
+			}
+		}
+	}
+	return nil
 }
 
 func (m *sphMachine) Apply(op HOp) *vf.Verdict {
@@ -200,14 +319,7 @@ func (m *sphMachine) Apply(op HOp) *vf.Verdict {
 		keep = append(keep, m.sent[to+1:]...)
 		m.sent = keep
 		// ranges: descending, contiguous runs of packet numbers that were really sent
-		var ranges []wire.AckRange
-		for i := len(pns) - 1; i >= 0; i-- {
-			if n := len(ranges); n > 0 && ranges[n-1].Smallest == pns[i]+1 {
-				ranges[n-1].Smallest = pns[i]
-			} else {
-				ranges = append(ranges, wire.AckRange{Smallest: pns[i], Largest: pns[i]})
-			}
-		}
+		ranges := ackRanges(pns)
 		if _, err := m.h.ReceivedAck(&wire.AckFrame{AckRanges: ranges, DelayTime: time.Duration(op.AckDelay)}, protocol.Encryption1RTT, m.t()); err != nil {
 			return vf.Bad(sigSPHError, "ReceivedAck(%v) for sent packets returned %v", ranges, err)
 		}
@@ -222,8 +334,15 @@ func (m *sphMachine) Apply(op HOp) *vf.Verdict {
 		}
 	case "mtu":
 		s := min(max(op.MDS, m.mds), protocol.MaxPacketBufferSize)
+		if s > m.mds && int64(ackhandler.VerifCongestionWindow(m.h)) >= (protocol.MaxCongestionWindowPackets-3)*m.mds {
+			m.mtuAtMax = true
+		}
 		m.h.SetMaxDatagramSize(protocol.ByteCount(s))
 		m.mds = s
+	case "rounds":
+		if v := m.applyRounds(op); v != nil {
+			return v
+		}
 	}
 	_, v := m.mode()
 	return v
@@ -234,7 +353,10 @@ func (m *sphMachine) Finish(u *vf.Unit) *vf.Verdict {
 		n string
 		b bool
 	}{{"send-any", m.sawAny}, {"congestion-limited", m.sawAck}, {"pacing-limited", m.sawPacing}, {"pto", m.sawPTO},
-		{"inflight>=cwnd", m.atWindow}, {"inflight==cwnd", m.equalWindow}, {"window-reduced", m.shrank}, {"grew-after-reduction", m.grewAfterShrink}} {
+		{"inflight>=cwnd", m.atWindow}, {"inflight==cwnd", m.equalWindow}, {"window-reduced", m.shrank}, {"grew-after-reduction", m.grewAfterShrink},
+		{"near-history", m.p.Near}, {"rounds-op", m.roundsOp}, {"at-maximum", m.hitMax}, {"within-3-packets-of-maximum", m.nearMax},
+		{"window-limited-round-trips-at-maximum>=3", m.roundsAtMax >= 3}, {"window-limited-round-trips-at-maximum>=5", m.roundsAtMax >= 5},
+		{"mtu-increase-at-maximum", m.mtuAtMax}} {
 		if c.b {
 			u.Class(c.n)
 		}
@@ -246,7 +368,47 @@ func (m *sphMachine) Finish(u *vf.Unit) *vf.Verdict {
 	return nil
 }
 
+// genNear directs the history to the maximum window through the handler: loss-free window-limited round trips at a
+// low round-trip time (slow start doubles the window up to the maximum), then round trips with a clearly higher
+// round-trip time in frames of <= 1000 packets, so that hybrid slow start sees 8 increased samples in one round and
+// ends slow start without a loss, then further window-limited round trips in (Reno) congestion avoidance at the
+// maximum, mixed with small MTU increases and ordinary ops.
+func (m *sphMachine) genNear(t *rapid.T) (HOp, bool) {
+	if m.nearLeft || m.work > 160_000 {
+		return HOp{}, false
+	}
+	cwnd := int64(ackhandler.VerifCongestionWindow(m.h))
+	maxW := protocol.MaxCongestionWindowPackets * m.mds
+	if !m.nearExit {
+		if cwnd < maxW {
+			r := 1
+			for w := 2 * cwnd; w < maxW; w *= 2 { // slow start doubles the window every round trip
+				r++
+			}
+			return HOp{K: "rounds", R: r, RTT: m.p.NearRTT, Chunk: m.p.NearChunk}, true
+		}
+		m.nearExit = true
+	}
+	if cwnd < maxW-64*m.mds {
+		m.nearLeft = true // a reduction: Reno needs thousands of round trips to come back
+		return HOp{}, false
+	}
+	high := m.p.NearRTT*9/4 + 20_000_000
+	switch x := rapid.IntRange(0, 9).Draw(t, "near-op"); {
+	case x < 7:
+		return HOp{K: "rounds", R: rapid.IntRange(1, 2).Draw(t, "r"), RTT: high, Chunk: rapid.SampledFrom([]int{1000, 1000, 64, 500}).Draw(t, "chunk")}, true
+	case x == 7:
+		return HOp{K: "mtu", MDS: min(m.mds+rapid.SampledFrom([]int64{1, 1, 2, 7}).Draw(t, "near-mtu"), 1452)}, true
+	}
+	return HOp{}, false
+}
+
 func (m *sphMachine) Gen(t *rapid.T) HOp {
+	if m.p.Near {
+		if op, ok := m.genNear(t); ok {
+			return op
+		}
+	}
 	op := HOp{Dt: rapid.SampledFrom([]int64{0, 0, 1000, 100_000, 1_000_000, 5_000_000, 20_000_000, 50_000_000, 300_000_000, 2_000_000_000}).Draw(t, "dt")}
 	n := len(m.sent)
 	kinds := []string{"send", "send", "send", "ack", "ack", "ack", "timeout", "mtu", "tick"}
@@ -291,6 +453,13 @@ func (m *sphMachine) Gen(t *rapid.T) HOp {
 
 func TestSendModeWindow(t *testing.T) {
 	vf.RunMachine(t, "sendmode-window", 70, func(t *rapid.T) HParams {
-		return HParams{MDS: rapid.SampledFrom([]int64{1200, 1252, 1280, 1452}).Draw(t, "mds"), Server: rapid.Bool().Draw(t, "server")}
+		p := HParams{MDS: rapid.SampledFrom([]int64{1200, 1252, 1280, 1452}).Draw(t, "mds"), Server: rapid.Bool().Draw(t, "server")}
+		// (a value from the middle of the range: rapid favours the ends)
+		if nearOneIn == 1 || rapid.IntRange(0, 2*nearOneIn-1).Draw(t, "near") == nearOneIn+1 {
+			p.Near = true
+			p.NearRTT = rapid.SampledFrom([]int64{2_000_000, 10_000_000, 20_000_000, 50_000_000, 100_000_000}).Draw(t, "near-rtt")
+			p.NearChunk = rapid.SampledFrom([]int{0, 0, 2, 64, 1000}).Draw(t, "near-chunk")
+		}
+		return p
 	}, newSPHMachine)
 }
